@@ -279,6 +279,37 @@ var c16InterceptorPanic any
 
 var c16Kinds = []string{"group-none-sibling-rec", "group-rec-sibling-nil", "router-rec-then-nil", "group-rec-new-nil", "router-log", "router-slog", "router-write", "router-rec+lock", "group-rec-inherited+lock", "router-none+lock", "group-rec-new-extra-option", "router-none", "router-rec", "router-status", "group-none", "group-rec-inherited", "group-status-inherited", "group-rec-new-overrides", "group-rec-added-own", "group-none-added-rec", "group-rec-added-none"}
 
+// c16RecFaultJob: a recovery function that gives up once (it panics with http.ErrAbortHandler, the way net/http asks
+// a handler to abort the connection) must not cost the router anything: the next handler panic is delivered to it
+// and the request returns. It runs as a work item so that a router that never answers is caught by the watchdog.
+func c16RecFaultJob(raw json.RawMessage) (any, error) {
+	out := &simpleOut{}
+	for _, lock := range []bool{false, true} {
+		var got []any
+		abortNext := true
+		rec := func(w http.ResponseWriter, v any) {
+			got = append(got, v)
+			if abortNext {
+				abortNext = false
+				panic(http.ErrAbortHandler)
+			}
+			w.WriteHeader(500)
+		}
+		r := NewRouter(RouterCfg{Lock: lock}, mux.WithRecovery(rec))
+		r.Handle("/p", hv.Route("hp"), nil, "GET")
+		hv.Serve(r, hv.Req{Method: "GET", Path: "/p", Fault: &hv.Fault{Site: "h", Val: "boom"}})
+		ok := hv.Serve(r, hv.Req{Method: "GET", Path: "/p"})
+		o := hv.Serve(r, hv.Req{Method: "GET", Path: "/p", Fault: &hv.Fault{Site: "h", Val: "boom2"}})
+		out.Evals += 3
+		if ok.Paniced || ok.Status != 200 || o.Paniced || o.Status != 500 || len(got) != 2 || got[1] != "boom2" {
+			out.Viols = append(out.Viols, explore.Violation{Property: "C16", Clause: "C16.contained", Class: "not-contained-after-recovery-function-gave-up", Config: fmt.Sprintf("NewRouter(WithRecovery(f), lock=%v); f panics with http.ErrAbortHandler on its first call", lock),
+				Probe: "GET /p (handler panics, f aborts) ; GET /p ; GET /p (handler panics with boom2)", Observed: fmt.Sprintf("second: %s ; third: %s ; values f saw: %v", ok.Summary(), o.Summary(), got),
+				Expected: "second: 200 ; third: contained, f called with boom2, status 500", Replay: explore.ItemReplay("c16/recfault", 0)})
+		}
+	}
+	return out, nil
+}
+
 func c16Job(raw json.RawMessage) (any, error) {
 	var it c16Item
 	if err := json.Unmarshal(raw, &it); err != nil {
@@ -441,6 +472,7 @@ func firstN(s string, n int) string {
 
 func init() {
 	explore.RegisterJob("c16/seq", c16Job)
+	explore.RegisterJob("c16/recfault", c16RecFaultJob)
 	explore.Register(&explore.Check{ID: "C16", Run: func(rc *explore.RunCtx) {
 		if !poolIsShim {
 			rc.Fail("C16 needs the overlay build with the deterministic context pool (./verif C16)")
@@ -492,5 +524,6 @@ func init() {
 			}
 		}
 		explore.ParMap(rc, "c16/seq", items, func(i int, in c16Item, o simpleOut) { mergeSimple(rc, o, "requests") })
+		explore.ParMap(rc, "c16/recfault", []int{0}, func(i int, in int, o simpleOut) { mergeSimple(rc, o, "requests") })
 	}})
 }
